@@ -252,8 +252,8 @@ fn expected_meta(doc: &IotaDocument) -> Value {
 fn meta_fields(doc: &IotaDocument) -> Value {
   let m = &doc.metadata;
   let mut o = serde_json::Map::new();
-  o.insert("created".into(), m.created.map(|t| Value::from(t.to_rfc3339())).unwrap_or(Value::Null));
-  o.insert("updated".into(), m.updated.map(|t| Value::from(t.to_rfc3339())).unwrap_or(Value::Null));
+  o.insert("created".into(), m.created.map(|t| Value::from(t.to_unix())).unwrap_or(Value::Null));
+  o.insert("updated".into(), m.updated.map(|t| Value::from(t.to_unix())).unwrap_or(Value::Null));
   o.insert("deactivated".into(), m.deactivated.map(Value::from).unwrap_or(Value::Null));
   o.insert("properties".into(), Value::Object(m.properties().iter().map(|(k, v)| (k.clone(), v.clone())).collect()));
   Value::Object(o)
